@@ -72,6 +72,22 @@ MUTANTS = [
  ('c13_soc_affine_ds_w', 'C13', R + 'core/cones/socone.rs', '_circ_op(ds, &self.λ, &self.λ);', '_circ_op(ds, &self.λ, &self.w);'),
  ('c13_psd_winv_uses_R', 'C13', R + 'core/cones/psdtrianglecone.rs', '&self.data.Rinv,\n            &mut self.data.workmat1,\n            &mut self.data.workmat2,\n            &mut self.data.workmat3,\n        )\n', '&self.data.R,\n            &mut self.data.workmat1,\n            &mut self.data.workmat2,\n            &mut self.data.workmat3,\n        )\n'),
  ('c13_psd_T_arm_no_t', 'C13', R + 'core/cones/psdtrianglecone.rs', 'tmp.mul(X, &Rx.t(), T::one(), T::zero());', 'tmp.mul(X, Rx, T::one(), T::zero());'),
+ ('c13_soc_sparse_d', 'C13', R + 'core/cones/socone.rs', 'sparse_data.d = half * wsqinv;', 'sparse_data.d = wsqinv;'),
+ ('c13_soc_sparse_fill_order', 'C13', 'src/solver/core/kktsolvers/direct/quasidef/datamaps.rs', 'K.fill_colvec(&mut map.v, row, col); //u\n                K.fill_colvec(&mut map.u, row, col + 1); //v', 'K.fill_colvec(&mut map.u, row, col); //u\n                K.fill_colvec(&mut map.v, row, col + 1); //v'),
+ ('c13_soc_sparse_Dswap', 'C13', 'src/solver/core/kktsolvers/direct/quasidef/datamaps.rs', 'updateFcn(ldl, K, &map.D, &[-η2, η2]);', 'updateFcn(ldl, K, &map.D, &[η2, -η2]);'),
+ ('c13_soc_sparse_hs_d', 'C13', R + 'core/cones/socone.rs', '            Hsblock[0] *= sparse_data.d;\n', '            Hsblock[0] = sparse_data.d;\n'),
+ ('c13_soc_identity_v_partial', 'C13', R + 'core/cones/socone.rs', '            sparse_data.v.fill(T::zero());\n        }\n    }\n\n    fn update_scaling', '            sparse_data.v[0] = T::zero();\n        }\n    }\n\n    fn update_scaling'),
+ ('c14_pow_sign_after', 'C14', R + 'core/cones/powcone.rs', '            if s[2] < T::zero() {\n                g[2] = -g[2];\n            }\n            g[0] = -(α * g[2] * s[2] + T::one() + α) / s[0];\n            g[1] = -((T::one() - α) * g[2] * s[2] + two - α) / s[1];', '            g[0] = -(α * g[2] * s[2] + T::one() + α) / s[0];\n            g[1] = -((T::one() - α) * g[2] * s[2] + two - α) / s[1];\n            if s[2] < T::zero() {\n                g[2] = -g[2];\n            }'),
+ ('c14_exp_grad2', 'C14', R + 'core/cones/expcone.rs', 'grad[2] = (c2 * z[0] - T::one()) / z[2];', 'grad[2] = (c2 * z[0] + T::one()) / z[2];'),
+ ('c14_exp_H01', 'C14', R + 'core/cones/expcone.rs', 'H[(0, 1)] = -l / (r * r);', 'H[(0, 1)] = l / (r * r);'),
+ ('c14_pow_H22', 'C14', R + 'core/cones/powcone.rs', 'H[(2, 2)] = gψ[2] * gψ[2] + two / ψ;', 'H[(2, 2)] = gψ[2] * gψ[2] + T::one() / ψ;'),
+ ('c15_shift_merged', 'C15', D + 'variables.rs', '        cones.scaled_unit_shift(z, -min_margin, pd);\n        cones.scaled_unit_shift(z, target, pd);', '        cones.scaled_unit_shift(z, target - min_margin, pd);'),
+ ('c07_shift_swapped', 'C07', D + 'variables.rs', '        cones.scaled_unit_shift(z, -min_margin, pd);\n        cones.scaled_unit_shift(z, target, pd);', '        cones.scaled_unit_shift(z, target, pd);\n        cones.scaled_unit_shift(z, -min_margin, pd);'),
+ ('c14_exp_primal_g2', 'C14', R + 'core/cones/expcone.rs', 'g[2] = ω / ((T::one() - ω) * s[2]);', 'g[2] = ω / ((ω - T::one()) * s[2]);'),
+ ('c14_exp_primal_g1', 'C14', R + 'core/cones/expcone.rs', 'g[1] = g[0] + g[0] * ((ω * s[1] / s[2]).logsafe()) - T::one() / s[1];', 'g[1] = g[0] * ((ω * s[1] / s[2]).logsafe()) - T::one() / s[1];'),
+ ('c15_composite_same_flag', 'C15', R + 'core/cones/compositecone.rs', '        α = innerfcn(α, false);', '        α = innerfcn(α, true);'),
+ ('c15_soc_linear_case_reverted', 'C15', R + 'core/cones/socone.rs', '        return if b < T::zero() {\n            T::min(αmax, -c / b)\n        } else {\n            αmax\n        };', '        return αmax;'),
+ ('c04_switch_falls_through', 'C04', R + 'core/solver.rs', 'StrategyCheckpoint::Update(s) => {scaling = s; continue}\n                    }\n            }  // allows', 'StrategyCheckpoint::Update(s) => {scaling = s}\n                    }\n            }  // allows'),
  ('c20_println_debug', 'C20', R + 'core/solver.rs', '            if is_scaling_success {\n                StrategyCheckpoint::NoUpdate', '            if is_scaling_success {\n                println!("scaling ok");\n                StrategyCheckpoint::NoUpdate'),
  ('c20_header_wrong_m', 'C20', D + 'info_print.rs', 'writeln!(out, "  constraints   = {}", data.m)?;', 'writeln!(out, "  constraints   = {}", data.n)?;'),
  ('c18_cones_stale', 'C18', D + 'problemdata.rs', '            cones_new.as_ref().unwrap_or(&cones),\n            settings,\n        );', '            &cones,\n            settings,\n        );'),
